@@ -6,8 +6,8 @@
 EXTENDS GtfsStaticProps, Json
 CONSTANT TraceFile
 Trace == ndJsonDeserialize(TraceFile)
-VARIABLES l, drift
-Init == l = 1 /\ drift = 0
+VARIABLES l, drift, nRel     \* nRel: records whose relation with a base feed was actually judged
+Init == l = 1 /\ drift = 0 /\ nRel = 0
 
 Step ==
     /\ l <= Len(Trace)
@@ -46,8 +46,10 @@ Step ==
        /\ Check("C10.inheritance-changes-only-that", c, l, (rel = "C10.inherit" /\ hasBase) => All(LAMBDA u : C10_InheritOnlyThat(u.res, e.baseRun[1].res)))
        /\ Check("relation-base-parses", c, l, (rel # "" /\ rel # "C01.wellformed" /\ Len(e.baseRun) = 1) => (e.baseRun[1].err = "" /\ Ok(1)))
        /\ drift' = drift + (IF Ok(1) /\ e.runs[1].res = Result(ParseFeed(feed, e.opts.inherit)) THEN 0 ELSE IF Ok(1) THEN 1 ELSE 0)
+    /\ nRel' = nRel + (IF Trace[l].relation \in {"C08.permutation", "C09.inert", "C10.equal", "C10.inherit"}
+                              /\ Len(Trace[l].baseRun) = 1 /\ Trace[l].baseRun[1].err = "" /\ Trace[l].runs[1].err = "" THEN 1 ELSE 0)
     /\ l' = l + 1
-    /\ (l = Len(Trace) => PrintT(<<"DRIFT", drift'>>))
-Spec == Init /\ [][Step]_<<l, drift>>
+    /\ (l = Len(Trace) => PrintT(<<"DRIFT", drift'>>) /\ PrintT(<<"COUNT", "relations_judged", nRel'>>))
+Spec == Init /\ [][Step]_<<l, drift, nRel>>
 TraceAccepted == TLCGet("stats").diameter - 1 = Len(Trace)
 =============================================================================
